@@ -547,7 +547,12 @@ type bObserved struct {
 	Scores   []float64
 }
 
-func (g *bGroup) search(qname string, rq Request, keyStrs []string) (bObserved, error) {
+func (g *bGroup) search(qname string, rq Request, keyStrs []string) (obs bObserved, err error) {
+	defer func() {
+		if r := recover(); r != nil {
+			err = fmt.Errorf("panic in Index.Search: %v", r)
+		}
+	}()
 	bq := queryByName(qname)
 	req := bleve.NewSearchRequestOptions(bq.Q(), rq.Size, 0, false)
 	req.SortByCustom(buildSort(rq.Sort, bField))
@@ -563,7 +568,7 @@ func (g *bGroup) search(qname string, rq Request, keyStrs []string) (bObserved, 
 	if err != nil {
 		return bObserved{}, err
 	}
-	obs := bObserved{Total: int(res.Total), MaxScore: res.MaxScore, Hits: []int{}}
+	obs = bObserved{Total: int(res.Total), MaxScore: res.MaxScore, Hits: []int{}}
 	for _, h := range res.Hits {
 		id, err := parseID(h.ID)
 		if err != nil {
@@ -637,7 +642,14 @@ func engineB(c *core.Ctx) error {
 				rq, strs := g.genRequest(rng, bq.Name)
 				obs, err := g.search(bq.Name, rq, strs)
 				if err != nil {
-					return fmt.Errorf("engine B: Search failed (%s, %s): %v", bq.Name, core.Canon(rq), err)
+					// a legal request failed (error, panic, hit without id): reproduce, then report
+					if _, err2 := g.search(bq.Name, rq, strs); err2 != nil {
+						c.Violation("B/search-error/"+rq.Mode, fmt.Sprintf("Index.Search fails on %s index, query %s, request %s: %v", g.rec.Kind, bq.Name, core.Canon(rq), err),
+							map[string]any{"engine": "B", "b": bArtefact{Index: g.rec, Query: bq.Name, Rq: rq, Keys: strs}})
+						c.Eval(1)
+						continue
+					}
+					return fmt.Errorf("engine B: Search failed once (%s, %s): %v", bq.Name, core.Canon(rq), err)
 				}
 				// the reference scores must be the scores Search reports (else the
 				// rank encoding would be meaningless)
@@ -804,7 +816,8 @@ func replayB(c *core.Ctx, raw json.RawMessage) error {
 	}
 	obs, err := g.search(art.Query, art.Rq, art.Keys)
 	if err != nil {
-		return err
+		c.Violation("B/search-error/"+art.Rq.Mode, fmt.Sprintf("replayed request %s fails: %v", core.Canon(art.Rq), err), map[string]any{"engine": "B", "b": art})
+		return nil
 	}
 	rec := g.record(art.Query, art.Rq, obs)
 	c.Eval(1)
